@@ -412,3 +412,276 @@ Proof.
       * left. apply Tr with (y := b); [exact H1|exact G2].
       * right. right. split; eauto.
 Qed.
+
+Lemma eqcl_absorb P a b : EqCl P a b -> forall x y, EqCl ((a, b) :: P) x y -> EqCl P x y.
+Proof.
+  intros Hab. apply eqcl_mono.
+  - intros u v [Hi|Hi]; [inversion Hi; subst; exact Hab|apply ec_base, Hi].
+  - apply ec_refl.
+  - apply ec_sym.
+  - apply ec_trans.
+Qed.
+
+(* ================================================================== merge *)
+Lemma merge_go_inv o : forall s P c, Inv s P ->
+  exists s' c', merge_go s c o = Ok (s', c') /\ Inv s' (rev o ++ P) /\
+    (c' = false <-> c = false /\ forall a b, In (a, b) o -> EqCl P a b).
+Proof.
+  induction o as [|[a b] r IH]; intros s P c I; cbn [merge_go].
+  - exists s, c. split; [reflexivity|]. split; [exact I|].
+    split; [intros H; split; [exact H|intros a b []]|intros [H _]; exact H].
+  - destruct (union_inv s P a b I) as [s1 [f [E [I1 Fl]]]]. rewrite E. cbn [bind fst snd].
+    destruct (IH s1 ((a, b) :: P) (c || f) I1) as [s' [c' [E' [I' Fl']]]].
+    exists s', c'. split; [exact E'|]. split.
+    + cbn [rev]. rewrite <- app_assoc. exact I'.
+    + rewrite Fl', orb_false_iff. split.
+      * intros [[Hc Hf] Hr]. split; [exact Hc|]. intros u v [Hi|Hi].
+        -- injection Hi as <- <-. apply Fl, Hf.
+        -- apply (eqcl_absorb P a b); [apply Fl, Hf|apply Hr, Hi].
+      * intros [Hc Hall]. split; [split; [exact Hc|apply Fl, Hall; left; reflexivity]|].
+        intros u v Hi. apply (eqcl_incl P); [intros z Hz; right; exact Hz|]. apply Hall. right. exact Hi.
+Qed.
+
+Lemma merge_inv s P o : Inv s P ->
+  exists s' f, merge s o = Ok (s', f) /\ Inv s' (o ++ P) /\
+    (f = false <-> forall a b, In (a, b) o -> EqCl P a b).
+Proof.
+  intros I. destruct (merge_go_inv o s P false I) as [s' [f [E [[F [Nk C]] Fl]]]].
+  exists s', f. split; [exact E|]. split.
+  - split; [exact F|]. split; [exact Nk|]. intros x y. rewrite C. split; apply eqcl_incl.
+    + intros z Hz. apply in_app_iff in Hz. apply in_app_iff. rewrite <- in_rev in Hz. exact Hz.
+    + intros z Hz. apply in_app_iff in Hz. apply in_app_iff. rewrite <- in_rev. exact Hz.
+  - rewrite Fl. tauto.
+Qed.
+
+(* the entries of a forest generate exactly its root classes *)
+Lemma entries_closure s : forest s -> NoDup (keys s) ->
+  forall x y, EqCl s x y <-> SameRoot s x y.
+Proof.
+  intros F Nk x y. split.
+  - revert x y. apply eqcl_mono.
+    + intros a b Hi. apply In_get in Hi; [|exact Nk].
+      destruct (F b) as [r Hr]. exists r. split; [|exact Hr].
+      apply rt_step with (p := b); [|exact Hr]. unfold par. rewrite Hi. reflexivity.
+    + intros a. apply sameroot_refl, F.
+    + apply sameroot_sym.
+    + apply sameroot_trans.
+  - assert (Up : forall u r, Rt s u r -> EqCl s u r).
+    { intros u r [l H]. induction H as [r Hr|u p r l Hp Hne Hr IH]; [apply ec_refl|].
+      apply ec_trans with (b := p); [|exact IH]. apply ec_base.
+      apply get_In. exact (par_get _ _ _ Hp Hne). }
+    intros [r [H1 H2]]. apply ec_trans with (b := r); [apply Up, H1|apply ec_sym, Up, H2].
+Qed.
+
+Lemma eqcl_app_cong A B P : (forall x y, EqCl A x y <-> EqCl B x y) ->
+  forall x y, EqCl (A ++ P) x y <-> EqCl (B ++ P) x y.
+Proof.
+  intros HAB.
+  assert (G : forall A B, (forall x y, EqCl A x y -> EqCl B x y) ->
+              forall x y, EqCl (A ++ P) x y -> EqCl (B ++ P) x y).
+  { intros A0 B0 H0. apply eqcl_mono.
+    - intros a b Hi. apply in_app_iff in Hi. destruct Hi as [Hi|Hi].
+      + apply (eqcl_incl B0); [intros z Hz; apply in_app_iff; left; exact Hz|].
+        apply H0, ec_base, Hi.
+      + apply ec_base, in_app_iff. right. exact Hi.
+    - apply ec_refl.
+    - apply ec_sym.
+    - apply ec_trans. }
+  intros x y. split; apply G; intros u v; apply HAB.
+Qed.
+
+(* ================================================================== partial_cmp / eq *)
+Lemma any_not_same_ok entries : forall o, forest o ->
+  exists o' b, any_not_same o entries = Ok (o', b) /\ pres o o' /\
+    (b = false <-> forall a p, In (a, p) entries -> SameRoot o a p).
+Proof.
+  induction entries as [|[i p] r IH]; intros o F; cbn [any_not_same].
+  - exists o, false. split; [reflexivity|]. split; [apply pres_refl|]. split; [intros _ a q []|reflexivity].
+  - destruct (same_spec o i p F) as [o1 [b1 [E1 [P1 B1]]]]. rewrite E1. cbn [bind fst snd].
+    destruct b1.
+    + destruct (IH o1 (pres_forest _ _ F P1)) as [o' [b [E [P' B]]]].
+      exists o', b. split; [exact E|]. split; [eapply pres_trans; eassumption|].
+      rewrite B. split.
+      * intros Hall a q [Hi|Hi].
+        -- inversion Hi; subst. apply B1. reflexivity.
+        -- apply (pres_same o o1 F P1). apply Hall, Hi.
+      * intros Hall a q Hi. apply (pres_same o o1 F P1). apply Hall. right. exact Hi.
+    + exists o1, true. split; [reflexivity|]. split; [exact P1|]. split; [discriminate|].
+      intros Hall. assert (false = true); [|discriminate]. apply B1, Hall. left. reflexivity.
+Qed.
+
+Lemma pcmp_ok a b : forest a -> forest b ->
+  exists a' b' c, pcmp a b = Ok (a', b', c) /\ pres a a' /\ pres b b'.
+Proof.
+  intros Fa Fb. unfold pcmp.
+  destruct (any_not_same_ok a b Fb) as [b' [g1 [E1 [P1 _]]]]. rewrite E1. cbn [bind fst snd].
+  destruct (any_not_same_ok b' a Fa) as [a' [g2 [E2 [P2 _]]]]. rewrite E2. cbn [bind fst snd].
+  eauto 8.
+Qed.
+
+Lemma peq_ok a b : forest a -> forest b ->
+  exists a' b' e, peq a b = Ok (a', b', e) /\ pres a a' /\ pres b b'.
+Proof.
+  intros Fa Fb. unfold peq.
+  destruct (any_not_same_ok a b Fb) as [b' [g1 [E1 [P1 _]]]]. rewrite E1. cbn [bind fst snd].
+  destruct g1.
+  - exists a, b', false. split; [reflexivity|]. split; [apply pres_refl|exact P1].
+  - destruct (any_not_same_ok b' a Fa) as [a' [g2 [E2 [P2 _]]]]. rewrite E2. cbn [bind fst snd].
+    eauto 8.
+Qed.
+
+(* ================================================================== histories *)
+Lemma inv_nil : Inv [] [].
+Proof.
+  assert (R0 : forall x, Rt [] x x) by (intros x; exists []; constructor; reflexivity).
+  split; [intros x; exists x; apply R0|]. split; [constructor|].
+  intros x y. split.
+  - intros [r [H1 H2]]. pose proof (rt_det _ _ _ _ (R0 x) H1) as Q1.
+    pose proof (rt_det _ _ _ _ (R0 y) H2) as Q2. rewrite Q1, Q2. apply ec_refl.
+  - revert x y. apply eqcl_mono.
+    + intros a b [].
+    + intros a. exists a. auto.
+    + apply sameroot_sym.
+    + apply sameroot_trans.
+Qed.
+
+(* every value reachable from Default by unions, merges and (compressing) queries terminates
+   without panic and satisfies the invariant for the pairs unioned in *)
+Theorem run_inv h : pure h = true -> exists s out, run h = Ok (s, out) /\ Inv s (pairs h).
+Proof.
+  induction h as [|raw|h IH a b|h IH a b|h IHh o IHo|h IHh o IHo|h IH]; cbn [pure run pairs]; intros Hp.
+  - exists [], []. split; [reflexivity|exact inv_nil].
+  - discriminate.
+  - destruct (IH Hp) as [s [out [E I]]]. rewrite E. cbn [bind fst snd].
+    destruct (union_inv s _ a b I) as [s' [f [E' [I' _]]]]. rewrite E'. cbn [bind fst snd]. eauto.
+  - destruct (IH Hp) as [s [out [E I]]]. rewrite E. cbn [bind fst snd].
+    destruct (same_spec s a b (proj1 I)) as [s' [f [E' [P' _]]]]. rewrite E'. cbn [bind fst snd].
+    exists s'. eexists. split; [reflexivity|]. exact (inv_pres _ _ _ I P').
+  - apply andb_true_iff in Hp. destruct Hp as [Hp1 Hp2].
+    destruct (IHh Hp1) as [s [out [E I]]]. rewrite E. cbn [bind fst snd].
+    destruct (IHo Hp2) as [so [outo [Eo Io]]]. rewrite Eo. cbn [bind fst snd].
+    destruct (merge_inv s _ so I) as [s' [f [E' [[F' [Nk' C']] _]]]]. rewrite E'. cbn [bind fst snd].
+    exists s'. eexists. split; [reflexivity|]. split; [exact F'|]. split; [exact Nk'|].
+    intros x y. rewrite C'. apply eqcl_app_cong. intros u v.
+    destruct Io as [Fo [Nko Co]]. rewrite (entries_closure so Fo Nko). apply Co.
+  - apply andb_true_iff in Hp. destruct Hp as [Hp1 Hp2].
+    destruct (IHh Hp1) as [s [out [E I]]]. rewrite E. cbn [bind fst snd].
+    destruct (IHo Hp2) as [so [outo [Eo Io]]]. rewrite Eo. cbn [bind fst snd].
+    destruct (pcmp_ok s so (proj1 I) (proj1 Io)) as [s1 [so1 [c [E1 [P1 Po1]]]]].
+    rewrite E1. cbn [bind fst snd].
+    destruct (peq_ok s1 so1 (pres_forest _ _ (proj1 I) P1) (pres_forest _ _ (proj1 Io) Po1))
+      as [s2 [so2 [e [E2 [P2 _]]]]].
+    rewrite E2. cbn [bind fst snd].
+    exists s2. eexists. split; [reflexivity|].
+    exact (inv_pres _ _ _ I (pres_trans _ _ _ P1 P2)).
+  - destruct (IH Hp) as [s [out [E I]]]. rewrite E. cbn [bind fst snd]. eauto.
+Qed.
+
+(* C04, union-find: after any history, two items are `same` exactly when they are equal or
+   connected by the equivalence closure of all pairs ever unioned / merged in *)
+Theorem uf_same_closure h : pure h = true -> forall x y,
+  exists s out s' b, run h = Ok (s, out) /\ same s x y = Ok (s', b) /\
+    (b = true <-> x = y \/ EqCl (pairs h) x y).
+Proof.
+  intros Hp x y. destruct (run_inv h Hp) as [s [out [E [F [Nk C]]]]].
+  destruct (same_spec s x y F) as [s' [b [E' [_ B]]]].
+  exists s, out, s', b. split; [exact E|]. split; [exact E'|]. rewrite B, C. split; [tauto|].
+  intros [->|H]; [apply ec_refl|exact H].
+Qed.
+
+(* the answer recorded by a `same` operation inside a history is that closure, too *)
+Corollary uf_history_same_answer h x y : pure h = true ->
+  exists s out b, run (HSame h x y) = Ok (s, out ++ [b2n b]) /\
+    (b = true <-> x = y \/ EqCl (pairs h) x y).
+Proof.
+  intros Hp. destruct (uf_same_closure h Hp x y) as [s [out [s' [b [E [E' B]]]]]].
+  exists s', out, b. split; [|exact B]. cbn [run]. rewrite E. cbn [bind fst snd]. rewrite E'. reflexivity.
+Qed.
+
+(* ================================================================== merge = join of partitions *)
+Inductive PJoin (R1 R2 : N -> N -> Prop) : N -> N -> Prop :=
+| pj_l x y : R1 x y -> PJoin R1 R2 x y
+| pj_r x y : R2 x y -> PJoin R1 R2 x y
+| pj_sym x y : PJoin R1 R2 x y -> PJoin R1 R2 y x
+| pj_trans x y z : PJoin R1 R2 x y -> PJoin R1 R2 y z -> PJoin R1 R2 x z.
+
+Theorem merge_is_join a b Pa Pb : Inv a Pa -> Inv b Pb ->
+  exists s' f, merge a b = Ok (s', f) /\ forest s' /\ NoDup (keys s') /\
+    (forall x y, SameRoot s' x y <-> PJoin (SameRoot a) (SameRoot b) x y) /\
+    (* the changed flag: false exactly when b's partition refines a's *)
+    (f = false <-> forall x y, SameRoot b x y -> SameRoot a x y).
+Proof.
+  intros Ia Ib. destruct (merge_inv a Pa b Ia) as [s' [f [E [[F' [Nk' C']] Fl]]]].
+  destruct Ia as [Fa [Nka Ca]]. destruct Ib as [Fb [Nkb Cb]].
+  pose proof (entries_closure b Fb Nkb) as EB.
+  exists s', f. split; [exact E|]. split; [exact F'|]. split; [exact Nk'|]. split.
+  - intros x y. rewrite C'. split.
+    + revert x y. apply eqcl_mono.
+      * intros u v Hi. apply in_app_iff in Hi. destruct Hi as [Hi|Hi].
+        -- apply pj_r, EB, ec_base, Hi.
+        -- apply pj_l, Ca, ec_base, Hi.
+      * intros u. apply pj_l, sameroot_refl, Fa.
+      * apply pj_sym.
+      * apply pj_trans.
+    + intros H. induction H as [x y H|x y H|x y H IH|x y z H1 IH1 H2 IH2].
+      * apply Ca in H. revert H. apply eqcl_incl. intros z Hz. apply in_app_iff. right. exact Hz.
+      * apply EB in H. revert H. apply eqcl_incl. intros z Hz. apply in_app_iff. left. exact Hz.
+      * apply ec_sym, IH.
+      * eapply ec_trans; eassumption.
+  - rewrite Fl. split.
+    + intros Hall x y H. apply EB in H. revert x y H. apply eqcl_mono.
+      * intros u v Hi. apply Ca, Hall, Hi.
+      * intros u. apply sameroot_refl, Fa.
+      * apply sameroot_sym.
+      * apply sameroot_trans.
+    + intros Href u v Hi. apply Ca, Href, EB, ec_base, Hi.
+Qed.
+
+(* ================================================================== malformed inputs *)
+(* a rho-shaped parent map (a tail leading into a cycle that does not contain the start):
+   the first loop never ends.  Such a map is not a forest, so no history builds it; it can only
+   be handed in through new / new_from.  The real code spins on it. *)
+Definition rho_map : uf := [(1, 2); (2, 3); (3, 2)]%N.
+
+Lemma rho_loop : forall fuel,
+  find_root fuel rho_map 1 2 = OutOfFuel /\ find_root fuel rho_map 1 3 = OutOfFuel.
+Proof.
+  induction fuel as [|f [IH2 IH3]]; [split; reflexivity|].
+  split; cbn; assumption.
+Qed.
+
+Theorem find_rho_diverges_refuted :
+  exists s x, ~ forest s /\ forall fuel, find fuel s x = OutOfFuel.
+Proof.
+  exists rho_map, 1%N.
+  assert (D : forall fuel, find fuel rho_map 1 = OutOfFuel).
+  { intros [|f]; [reflexivity|].
+    assert (R1 : find_root (S f) rho_map 1 1 = find_root f rho_map 1 2) by reflexivity.
+    unfold find. rewrite R1, (proj1 (rho_loop f)). reflexivity. }
+  split; [|exact D]. intros F.
+  destruct (find_terminates rho_map 1%N 4 F) as [r [s' [E _]]]; [cbn; lia|].
+  rewrite D in E. discriminate.
+Qed.
+
+(* pure cycles (the repo's test_malformed): the loop guard closes the cycle, find terminates
+   with the default fuel, and all members answer `same` *)
+Definition cycle3 : uf := [(1, 2); (2, 3); (3, 1)]%N.
+Definition cycle4 : uf := [(1, 2); (2, 3); (3, 4); (4, 1)]%N.
+
+Lemma find_pure_cycle_examples :
+  find (dfuel cycle3) cycle3 1 = Ok (3, [(1, 3); (2, 3); (3, 3)])%N /\
+  find (dfuel cycle4) cycle4 1 = Ok (4, [(1, 4); (2, 4); (3, 4); (4, 4)])%N /\
+  (exists s, same cycle3 1 2 = Ok (s, true)) /\ (exists s, same cycle4 1 2 = Ok (s, true)) /\
+  ~ forest cycle3.
+Proof.
+  split; [reflexivity|]. split; [reflexivity|]. split; [eexists; reflexivity|].
+  split; [eexists; reflexivity|].
+  intros F. destruct (F 1%N) as [r [l H]].
+  pose proof (rootp_len _ _ _ _ H) as Hl.
+  (* four steps from 1 come back to 1: the path would repeat a node *)
+  inversion H as [r' Hr'|x1 p1 r1 l1 Hp1 Hn1 H1]; subst; [cbv in Hr'; discriminate|].
+  cbv in Hn1. inversion H1 as [r' Hr'|x2 p2 r2 l2 Hp2 Hn2 H2]; subst; [cbv in Hr'; discriminate|].
+  inversion H2 as [r' Hr'|x3 p3 r3 l3 Hp3 Hn3 H3]; subst; [cbv in Hr'; discriminate|].
+  inversion H3 as [r' Hr'|x4 p4 r4 l4 Hp4 Hn4 H4]; subst; [cbv in Hr'; discriminate|].
+  cbn in Hl. lia.
+Qed.
